@@ -30,7 +30,8 @@ CHECKS = {
     "C03": dict(
         text="Every (X,Y,Z) split on every labelled ADMG up to 3 nodes and four-node name-ordered graphs (quick: <=4 edges; thorough: "
         "all 4096 plus labelled <=4 edges) is run through both IDC entry points; estimands are evaluated exactly on generic witness "
-        "SCMs for every assignment and compared with P(y,z|do x)/P(z|do x); any outcome other than estimand/refusal is a violation.",
+        "SCMs for every assignment and compared with P(y,z|do x)/P(z|do x); any outcome other than estimand/refusal is a violation. Builder phase: every sequence "
+        "of three edge insertions on one live graph object, every query asked again after every insertion.",
         note="Trusted: mc/scm.py and mc/semantics.py; bounded-exhaustive, witnesses stand in for all SCMs.",
         design="4/C03",
     ),
